@@ -665,6 +665,40 @@ def pipeline_cases(ctx, n):
             ctx.violation('spec', f"C18 fails on the implementation: {b}", {'pipeline_case': case, 'failure': b})
 
 
+def name_and_index_findings(ctx):
+    """selection by molecule name AND index where the two disagree (known findings F41, F42): a [ molecule ] block whose
+    index range holds a molecule of another name, with pair restraints / a persistence length; -start naming a molecule
+    index that belongs to another name"""
+    import polyply.src.gen_coords as gc
+    from polyply.src.load_library import load_build_files
+    chain = systems.gen_moltype(ctx.rng, 'MA', nres=4, shape='path', resnames=['RA'] * 4)
+    other = dict(chain, name='MB')
+    molecules = [('MA', 1), ('MB', 1)]
+    with systems.Workdir() as wd:
+        for what, text in (('distance_restraints', '[ molecule ]\nMA 0 2\n[ distance_restraints ]\n0 3 1.0 0.1\n'),
+                           ('persistence_length', '[ molecule ]\nMA 0 2\n[ persistence_length ]\nWCM 1.0 0 3\n')):
+            top = load_topology(wd, [chain, other], molecules)
+            p = pathlib.Path(wd) / 'f41.bld'
+            p.write_text(text)
+            quiet(load_build_files, top, None, [p])
+            hit = [k for k in top.distance_restraints if k[1] == 1 and top.distance_restraints[k]] if what == 'distance_restraints' else \
+                [list(sp.mol_idxs) for sp in top.persistences if 1 in list(sp.mol_idxs)]
+            ctx.case(('finding', 'F41', what), nontrivial=True)
+            if hit:
+                ctx.violation('spec', f"build file: the block '[ molecule ] MA 0 2' with [ {what} ] is applied to molecule 1, which is named MB "
+                              f"(the index range is used without the name)", {'finding_probe': 'F41', 'directive': what}, finding='F41')
+        top = load_topology(wd, [chain, other], molecules)
+        try:
+            start = quiet(gc.find_starting_node_from_spec, top, ['MA#1-RA#3'])
+            accepted = start.get(1) is not None
+        except Exception:  # noqa
+            accepted = False
+        ctx.case(('finding', 'F42', 'start'), nontrivial=True)
+        if accepted:
+            ctx.violation('spec', "-start MA#1-RA#3: molecule 1 is named MB, yet its residue 3 is made the start residue (the name is ignored when an index is given)",
+                          {'finding_probe': 'F42'}, finding='F42')
+
+
 def run(ctx):
     ctx.correspondences += ['load_build_files (restraints / rw_options per residue) vs model apply_build',
                             'parse_residue_spec, find_starting_node_from_spec vs model parse_spec / start_node',
@@ -722,6 +756,7 @@ def run(ctx):
             ctx.note(str(exc)[:800])
             ctx.broken.append('correspondence:selection vs model (evaluation failed)')
     pipeline_cases(ctx, ctx.n(40, 400))
+    name_and_index_findings(ctx)
     split_e2e(ctx, ctx.n(16, 90))
     for _lig_k in range(ctx.n(9, 80)):
         case, res, rec = ligand_run(rng, by_name=(_lig_k % 3 == 2))
